@@ -12,8 +12,8 @@ package mon
 //     declaration and sites whose bound cannot be resolved from the package are counted as unchecked;
 //   * the generated decoder REJECTS a collection one element over its declared allocbound (probe, per declared site);
 //   * bytes allocated by one decode (runtime.MemStats.TotalAlloc delta) <= 1024*(len(input)+MaxSize(type)) + 1 MiB, for
-//     types whose generated MaxSize exists, terminates and does not panic; the constant is ~38x the largest ratio observed on
-//     the unchanged tree (27 bytes per byte of input+MaxSize) -- the monitor exists to catch a length prefix honoured before
+//     types whose generated MaxSize exists, terminates and does not panic; the constant is ~20x the largest ratio observed on
+//     the unchanged tree (51 bytes per byte of input+MaxSize, thorough tier) -- the monitor exists to catch a length prefix honoured before
 //     it is checked, not to police small constants.
 // Trailing bytes after a complete object are accepted by design (go-codec compatibility) and are not a finding.
 
@@ -280,7 +280,7 @@ func verifMsgpBuildInput(seed uint64, cd *Codec, tc *verifMsgpTypeCtx, ci int) v
 	var rec []byte
 	if k == "recursive-nest" && tc.recursive {
 		d := []int{200, 254, 255, 256, 300, 10000}[(ci/len(verifMsgpMutClasses))%6]
-		if ci/len(verifMsgpMutClasses) == 7 {
+		if ci/len(verifMsgpMutClasses) == 3 {
 			d = 2000000 // far beyond any stack the limit would allow: fatal if the depth limit is not applied
 		}
 		rec = verifMsgpRecursiveInput(tc.recPrefix, tc.recTurn, d)
@@ -328,10 +328,10 @@ func verifMsgpCases(tier, lane string) int {
 	if tier == "thorough" {
 		n = 3200
 		if lane != "plain" {
-			n = 320
+			n = 96 // the race detector slows these decodes ~50x
 		}
 	} else if lane != "plain" {
-		n = 320
+		n = 96
 	}
 	return n
 }
